@@ -162,5 +162,11 @@ mut('benign-print-via-write', ['C09', 'C12', 'C16'], G, "                print(g
 mut('benign-queue-le', ALLG[:5], Q, "        return self.pt_item['prob'] >= other.pt_item['prob']", "        return not (self.pt_item['prob'] < other.pt_item['prob'])", benign=True)
 mut('revert-F-C05b', 'C05', DR + 'keyboard_walk.py', "if sys.getrecursionlimit() < len(password) + 1000:", "if False:", desc='only the thorough tier generates the 1000-walk strings: run with --tier thorough')
 mut('revert-F-C20', 'C20', ER, "        elif total_length >= min_length and total_length + extra_length <= max_length:", "        elif total_length >= min_length and total_length <= max_length:")
+# ---- input classes added in the sixth wave of seeded changes
+mut('c11-bailout-above-max-level', ['C11', 'C18'], GS, "        if length == 1:\r\n            cp_index, cp_level = self._find_cp(ip, target_level, target_level)", "        if target_level > self.max_level:\r\n            return None\r\n        if length == 1:\r\n            cp_index, cp_level = self._find_cp(ip, target_level, target_level)", desc='true for the last transition only: strings whose transition levels add up to more than 10 are never generated')
+mut('c12-one-read-one-command', 'C12', CS, "        user_input = input()", "        user_input = (lambda b: b.decode(errors='replace').rstrip('\\r\\n') if b else sys.exit())(__import__('os').read(0, 1024))", desc='two requests arriving in one read are one (unknown) command: the quit is lost')
+mut('c17-loader-skips-exponent-notation', ['C17', 'C02'], GIO, "                value = split_values[0]\r\n                prob = float(split_values[1]) / total_prob", "                if not split_values[1].replace('.', '', 1).isdigit():\r\n                    continue\r\n                value = split_values[0]\r\n                prob = float(split_values[1]) / total_prob", desc='probabilities below 1e-4 are written in exponent notation and silently skipped')
+mut('c19-multiword-read-with-prefixcount', 'C19', RT, "            program_info['multiword'],\r\n            program_info['encoding']\r\n        )", "            program_info['multiword'],\r\n            program_info['encoding'],\r\n            program_info['prefixcount']\r\n        )")
+mut('c20-copy-exists-falls-through', 'C20', ER, "        _create_copy(os.path.join(config.get('rules_dir'), config.get('rule')),\n                    os.path.join(config.get('rules_dir'), config.get('copy')))\n        config['rule'] = config['copy']", "        try:\n            _create_copy(os.path.join(config.get('rules_dir'), config.get('rule')),\n                    os.path.join(config.get('rules_dir'), config.get('copy')))\n            config['rule'] = config['copy']\n        except FileExistsError:\n            pass")
 json.dump(M, open(os.path.join(os.path.dirname(os.path.abspath(__file__)), 'mutants.json'), 'w'), indent=1)
 print(len(M), 'mutants')
